@@ -3,15 +3,17 @@ CONSTANTS
   Mode = "cases"
   Slice = "none"
   MaxFields = 0
-  MaxLen = 3
-  Salts = {0, 1}
-  SetVals = {0, 2}
+  MaxLen = 0
+  Salts = {0}
+  SetVals = {0}
+  MaxKw = 9
 INVARIANT TypeOK
 INVARIANT HashTableTotal
 INVARIANT BindConflictFree
 INVARIANT SignatureOK
 INVARIANT OrderLaws
 INVARIANT EqHashCoherent
-INVARIANT ImplVsRef
+INVARIANT ImplVsRefCfg
+INVARIANT ImplVsRefStep
 INVARIANT Publish
 CHECK_DEADLOCK FALSE
